@@ -9,6 +9,8 @@
 #define VERIF_CUSTOM_SINK
 #include "common.h"
 #include <sys/resource.h>
+void mmd_critic_markup_accept(DString * d);
+void mmd_critic_markup_reject(DString * d);
 
 void mmd6_verif_event(int kind, long a, long b) { (void) kind; (void) a; (void) b; }
 void mmd6_verif_point(int where) { (void) where; }
@@ -42,6 +44,9 @@ int main(int argc, char ** argv) {
 #endif
 	uintptr_t base = (uintptr_t) __builtin_frame_address(0);
 	counting = 1;
+	/* as the command line tool does for -a / -r: the text-level CriticMarkup pass runs first */
+	if (ext & EXT_CRITIC_ACCEPT) mmd_critic_markup_accept(src);
+	if (ext & EXT_CRITIC_REJECT) mmd_critic_markup_reject(src);
 	DString * out = mmd_d_string_convert_to_data(src, ext, fmt, 0, NULL);
 	counting = 0;
 	size_t outlen = out ? out->currentStringLength : 0;
